@@ -6,7 +6,7 @@
    96e75001, 6814bca0.  One defect remains (finding F3d, narrowed): item
    assignment at index = len(c) - [kf_op xs o] is 2 exactly for [OSet i v] with
    i = length xs and 0 for every other operation. *)
-From RV Require Import Collection.Model Collection.Proofs Collection.Reads Collection.Historical.
+From RV Require Import Collection.Model Collection.Proofs Collection.Reads Collection.Historical Collection.Histories.
 
 (* [frozen s]: s is below the cell numbers and is neither the head nor rdf:nil -
    a subject that can never be a cell of the collection under test.  The graph
@@ -81,6 +81,41 @@ Theorem C19_iadd_self_doubles : forall fz, fz NIL = false -> fz HEAD = false ->
   /\ snd (c_iadd_self s HEAD) = RNone.
 Proof. exact step_iadd_self. Qed.
 Print Assumptions C19_iadd_self_doubles.
+
+(* refinement and frame for EVERY reachable state (induction over the operations,
+   no bound on their number): from any represented list, any trigger-free history
+   ops leaves a state that represents the Python list the same history produces
+   ([lsteps] folds [lstep]), list(c) is that list, the answers on the way
+   ([c_trace]) are the list's answers ([l_trace]), and no triple with a frozen
+   subject has changed since the start *)
+Theorem C19_refines_history : forall fz, fz NIL = false -> fz HEAD = false ->
+  forall ops s xs, Inv fz s xs -> kf_run xs ops = 0%N ->
+  Inv fz (c_steps s ops) (lsteps xs ops) /\
+  Frame fz (gr s) (gr (c_steps s ops)) /\
+  c_iter (gr (c_steps s ops)) HEAD = RList (lsteps xs ops) /\
+  c_trace s ops = l_trace xs ops.
+Proof. exact refines_history. Qed.
+Print Assumptions C19_refines_history.
+
+(* ... so len(c) and every c[i] (negative and out-of-range indices included) after
+   the history are those of that list *)
+Theorem C19_history_len_getitem : forall fz, fz NIL = false -> fz HEAD = false ->
+  forall ops s xs i, Inv fz s xs -> kf_run xs ops = 0%N ->
+  c_len (gr (c_steps s ops)) HEAD = RNat (N.of_nat (length (lsteps xs ops))) /\
+  c_getitem (gr (c_steps s ops)) HEAD i = snd (lstep (lsteps xs ops) (OGet i)).
+Proof.
+  intros fz Hn Hh ops s xs i HI Hk. split;
+    [exact (history_len fz Hn Hh ops s xs HI Hk)|exact (history_getitem fz Hn Hh ops s xs i HI Hk)].
+Qed.
+Print Assumptions C19_history_len_getitem.
+
+(* non-vacuity of the two: the initial state of a concrete case with noise meets
+   Inv (C19_init_represents) and this history is trigger-free and changes the list *)
+Example C19_history_nonvacuous :
+  let ops := [ODel 0; OAppend 7%N; OSet (-1) 14%N; OIadd [6; 6]%N; OIaddSelf; ODel (-2)] in
+  kf_run [6; 5]%N ops = 0%N /\ lsteps [6; 5]%N ops = [5; 14; 6; 6; 5; 14; 6]%N
+  /\ l_trace [6; 5]%N ops = [RNone; RNone; RNone; RNone; RNone; RNone].
+Proof. repeat split; vm_compute; reflexivity. Qed.
 
 (* refinement, whole histories, in the form the conformance check evaluates *)
 Theorem C19_spec_ok_model : forall c, wfb c = true -> kf c = 0%N -> spec_ok c (model_obs c) = true.
